@@ -19,8 +19,11 @@ type ErrSpec struct {
 	Code    uint64
 	// Layers are wrappers applied on top of the coded (or plain) error, inner
 	// first: 0 fmt.Errorf("%w"), 1 errs.Wrap, 2 Cause()-only, 3 Unwrap()-only,
-	// 4 opaque (fmt.Errorf("%v"): hides the code), 5 errs.Class.Wrap.
+	// 4 opaque (fmt.Errorf("%v"): hides the code), 5 errs.Class.Wrap,
+	// 6 drpcerr.WithCode(err, OuterCode): a code attached again further out.
 	Layers []int
+	// OuterCode is the code layer 6 attaches (0 attaches nothing).
+	OuterCode uint64
 	// Twirp, when non-nil, gives the innermost error a `Code() string` method.
 	Twirp *string
 	// Odd selects a hostile shape: "", "unwrap_nil", "cause_nil", "self_cycle",
@@ -143,6 +146,8 @@ func (s ErrSpec) Build() error {
 			err = fmt.Errorf("o%d: %v", i, err)
 		case 5:
 			err = class.Wrap(err)
+		case 6:
+			err = drpcerr.WithCode(err, s.OuterCode)
 		}
 	}
 	return err
@@ -159,9 +164,15 @@ func (s ErrSpec) ExpectedCode() (code uint64, ok bool) {
 	if len(s.Layers) > 99 {
 		return 0, false
 	}
-	for _, l := range s.Layers {
-		if l == 4 {
+	// the outermost code that is visible through the wrappers wins
+	for i := len(s.Layers) - 1; i >= 0; i-- {
+		switch s.Layers[i] {
+		case 4:
 			return 0, true
+		case 6:
+			if s.OuterCode != 0 {
+				return s.OuterCode, true
+			}
 		}
 	}
 	if s.HasCode {
@@ -225,7 +236,13 @@ func GenErr(maxMsg int, odd bool) *rapid.Generator[ErrSpec] {
 			s.HasCode = true
 			s.Code = rapid.OneOf(rapid.SampledFrom(boundaryCodes), rapid.Uint64()).Draw(t, "code")
 		}
-		s.Layers = rapid.SliceOfN(rapid.SampledFrom([]int{0, 0, 1, 2, 3, 5, 4}), 0, 6).Draw(t, "layers")
+		s.Layers = rapid.SliceOfN(rapid.SampledFrom([]int{0, 0, 1, 2, 3, 5, 4, 6}), 0, 6).Draw(t, "layers")
+		for _, l := range s.Layers {
+			if l == 6 {
+				s.OuterCode = rapid.OneOf(rapid.SampledFrom(boundaryCodes), rapid.Uint64()).Draw(t, "outercode")
+				break
+			}
+		}
 		if rapid.IntRange(0, 5).Draw(t, "twirp") == 0 {
 			c := rapid.SampledFrom([]string{"not_found", "internal", "canceled", "weird_code", "", "with\nnl", "unauthenticated", "dataloss", "bad\r\nroute"}).Draw(t, "tcode")
 			s.Twirp = &c
